@@ -269,6 +269,11 @@ class Generator(AbstractODSGenerator):
                     if balance_set.exchange not in asset_crypto_balance_holder_exchange[asset][balance_set.holder]:
                         asset_crypto_balance_holder_exchange[asset][balance_set.holder][balance_set.exchange] = balance_set.final_balance
 
+        # An asset that is left with no positive balance has no open position, even if some of its lots look unsold (this can happen if
+        # the from-date filter hides the transactions that sold them): leave it out of the report and of the portfolio totals.
+        for asset in [asset for asset in asset_cost_bases if asset not in asset_crypto_balance_holder]:
+            total_cost_basis -= asset_cost_bases.pop(asset)
+
         # Now looping through the assets to do the reporting.
         for asset, asset_cost_basis in asset_cost_bases.items():
             total_crypto_balance = ZERO
